@@ -222,7 +222,7 @@ CLAIMED = {
         "arguments) up to forward_project<->back_project; forward projection into a data set writes only set_related_viewgrams of its "
         "subset and fill(0) under the zero flag; only the image-taking back_project wrapper starts a new target; the on-the-fly ray-tracing "
         "projector's tangential loop starts at the smallest |tangential position| of the requested range in all three sign configurations "
-        "(case analysis). the range-taking convenience overloads of the projector base classes hand the caller's viewgrams and ranges to the implementation slot by slot (missing ranges = the viewgrams' full ranges) and the forward wrappers write nothing themselves; in the on-the-fly projector every proj_Siddon call fills every axial position its consumer loop reads; sibling implementations of actual_forward_project agree on overwriting the data present in the viewgrams (plain assignment, or - where the kernels accumulate with += - the requested range of every viewgram is set to 0 before the first kernel call; defect F34, fixed). Linearity, adjointness, additivity and on-the-fly = matrix equality are numerical and in get_related_bins_factorised a related bin is listed under range tests of its own coordinates only. NOT decided.",
+        "(case analysis). the range-taking convenience overloads of the projector base classes hand the caller's viewgrams and ranges to the implementation slot by slot (missing ranges = the viewgrams' full ranges) and the forward wrappers write nothing themselves; in the on-the-fly projector every proj_Siddon call fills every axial position its consumer loop reads; sibling implementations of actual_forward_project agree on overwriting the data present in the viewgrams (plain assignment, or - where the kernels accumulate with += - the requested range of every viewgram is set to 0 before the first kernel call; defect F34, fixed). Linearity, adjointness, additivity and on-the-fly = matrix equality are numerical and NOT decided. Also decided: in get_related_bins_factorised a related bin is listed under range tests of its own coordinates only (the uncached matrix projectors project exactly that list).",
         technique="static analysis: dual sibling comparison of call skeletons, must-facts guards, who-may-call, sign-case evaluation of "
         "an integer expression",
     ),
@@ -240,9 +240,9 @@ CLAIMED = {
         "reads back as what was written; a key the reader registers for one `type of data` only is written for that type only (known finding F28: data offset in bytes for NM data); "
         "the header writers leave the formatting state of the header stream as they found it (sticky manipulators / precision()/flags() put back on every path); "
         "every literal value written for a key with a value list is in the reader's list, and where enumerators are mapped to strings by a switch, enumerator e is written as list entry e (F27, fixed); "
-        "per exam-info attribute the writer's bound on the getter implies the reader's bound on what it hands to the setter (F29, fixed); scale factors, calibration factor and frame times are written with "
-        "at least max_digits10 digits of their type (F30, fixed). NOT "
-        "decided: value preservation/quantisation bounds numerically, precision of voxel sizes/offsets, dynamic/parametric "
+        "per exam-info attribute the writer's bound on the getter implies the reader's bound on what it hands to the setter (F29, fixed); scale factors, calibration factor, frame times, voxel sizes and first pixel offsets are written with "
+        "at least max_digits10 digits of their type (F30, F75, fixed). NOT "
+        "decided: value preservation/quantisation bounds numerically, dynamic/parametric "
         "container bookkeeping.",
         technique="static analysis: writer/reader key-table agreement, must-pass-through, switch exhaustiveness and sibling agreement, "
         "expression-shape algebra",
@@ -255,7 +255,7 @@ CLAIMED = {
         "tangential position is negated and the ring difference is taken with exchanged end points under the same flag; by closed-form "
         "algebra arc-corrected get_s = tangential position * bin_size (uniform sampling, odd), non-arc-corrected get_s is odd, get_phi is "
         "affine in the view with slope azimuthal_angle_sampling, get_m is affine in the axial position with the segment's axial sampling, "
-        "get_tantheta is odd in the ring difference and even in s and equals the axial distance over the TRANSAXIAL distance of the end points in both geometry families (F39, fixed); the azimuthal offset of view-mashed data is pi/(N/2)*(M-1)/2 with a real-valued (M-1)/2. the coordinate getters of the blocks/generic geometries are components of the one get_LOR conversion (a getter using only the z components of the detection points is refused). voxel sizes and first pixel offsets are among the quantities written with max_digits10 digits (F75, fixed). NOT decided: that get_bin(get_LOR(bin)) returns the same or a "
+        "get_tantheta is odd in the ring difference and even in s and equals the axial distance over the TRANSAXIAL distance of the end points in both geometry families (F39, fixed); the azimuthal offset of view-mashed data is pi/(N/2)*(M-1)/2 with a real-valued (M-1)/2. the coordinate getters of the blocks/generic geometries are components of the one get_LOR conversion (a getter using only the z components of the detection points is refused). NOT decided: that get_bin(get_LOR(bin)) returns the same or a "
         "neighbouring bin, agreement of the coordinates with the detectors' physical positions, TOF bin boundaries, arc correction "
         "preserving integrals (floating-point geometry over runtime scanner parameters).",
         technique="static analysis: typestate (range test after last modification) over clang CFG with short-circuit-aware ordering, "
